@@ -3,8 +3,9 @@
   Every theorem quantifies over `Reachable s`, i.e. over EVERY interleaving of the atomic actions
   of Serve / handleLoop / handle / Shutdown / Close / HTTPProxy.run and of the environment
   (clients, origin, context, callers) from the initial state; no bound on the number of
-  connections or steps, and over both kinds of context handed to `Shutdown` (one that may expire =
-  positive shutdown timeout, one that never expires = shutdown timeout 0, section G).
+  connections, steps or CALLS of Shutdown / Close (any number of them, one after the other or
+  concurrently, each Shutdown with a context of its own), and over every shutdown configuration
+  (deadline or none, shutdown signals or none; sections G, I).
   Helper lemmas: `Lemmas/C11Step|C11|C11Inv|C11Progress|C11Ctx|C11Tunnel.lean`.
 
   Reading of the ghost fields of a connection (`Model/C11.lean`):
@@ -30,11 +31,11 @@ def toOrigin (c : ConnId) (r : Req) : List Action :=
   [.send c r, .conn c .firstByte, .conn c .readDone, .conn c .check, .conn c .forward]
 
 /-- `Shutdown` up to `close(closeCh)` -/
-def beginShutdown : List Action := [.shutdownCall, .shutLock, .shutCloseCh]
+def beginShutdown : List Action := [.shutdownCall 0 false false, .shutLock 0, .shutCloseCh 0]
 
 /-- what the examples look at -/
 def view (c : ConnId) (s : State) : Int × Bool × PC × Bool × SPC :=
-  (s.counter, s.closing, (s.conns c).pc, (s.conns c).sockClosed, s.shut)
+  (s.counter, s.closing, (s.conns c).pc, (s.conns c).sockClosed, (s.shuts 0).pc)
 
 /-! ## A. The counter and the registry -/
 
@@ -58,8 +59,30 @@ theorem c11_registered_invariant {s : State} (h : Reachable s) :
     critical section; Shutdown holds it from `Lock` until it returns -/
 theorem c11_lock_mutex {s : State} (h : Reachable s) :
     (∀ c, holdsLock (s.conns c).pc = true ↔ s.lock = .conn c) ∧
-    (s.lock = .shutdown ↔ shutHolds s.shut = true) ∧ (s.lock = .closer ↔ closeHolds s.close = true) :=
+    (∀ k, s.lock = .shutdown k ↔ shutHolds (s.shuts k).pc = true) ∧
+    (∀ k, s.lock = .closer k ↔ closeHolds (s.closes k) = true) :=
   ⟨(inv_reachable h).lockConn, (inv_reachable h).lockShut, (inv_reachable h).lockClose⟩
+
+/-- however many calls of `Shutdown` and `Close` are under way, at most one of them is between its
+    `Lock` and its `Unlock`: two calls of Shutdown, two calls of Close, or one of each never are -/
+theorem c11_calls_exclude_each_other {s : State} (h : Reachable s) (k j : CallId) :
+    (shutHolds (s.shuts k).pc = true → shutHolds (s.shuts j).pc = true → k = j) ∧
+    (closeHolds (s.closes k) = true → closeHolds (s.closes j) = true → k = j) ∧
+    (shutHolds (s.shuts k).pc = true → closeHolds (s.closes j) = false) := by
+  have hi := inv_reachable h
+  refine ⟨fun h1 h2 => ?_, fun h1 h2 => ?_, fun h1 => ?_⟩
+  · have a := (hi.lockShut k).mpr h1
+    rw [(hi.lockShut j).mpr h2] at a
+    exact (Holder.shutdown.inj a).symm
+  · have a := (hi.lockClose k).mpr h1
+    rw [(hi.lockClose j).mpr h2] at a
+    exact (Holder.closer.inj a).symm
+  · cases hc : closeHolds (s.closes j) with
+    | false => rfl
+    | true =>
+      have a := (hi.lockShut k).mpr h1
+      rw [(hi.lockClose j).mpr hc] at a
+      cases a
 
 /-- two connections are never both inside a critical section -/
 theorem c11_lock_exclusive {s : State} (h : Reachable s) {c d : ConnId}
@@ -92,27 +115,55 @@ example : (run init (openConn 0 ++ [.gone 0, .conn 0 .idleFail, .conn 0 .sockClo
     .conn 0 .lockAcqU, .conn 0 .delete, .conn 0 .unlockU])).map
       (fun s => (s.counter, s.registered, terminal (s.conns 0).pc)) = some (0, [], true) := by decide
 
-/-! ## B. What `Shutdown` returns -/
+/-! ## B. What `Shutdown` returns — every call of it
 
-/-- `Shutdown` reaches `return nil` only in a state with counter 0 in which no connection is
-    between register and counterDec — and the state stays like that until Shutdown unlocks -/
-theorem c11_shutdown_nil_only_drained {s : State} (h : Reachable s) (hs : s.shut = .retNil) :
-    s.counter = 0 ∧ ∀ c, counted (s.conns c).pc = false := by
+  `k` is the number of a call of `Shutdown`; nothing is assumed about the other calls (of Shutdown or of
+  Close) that were made before it or are under way at the same time. -/
+
+/-- call `k` of `Shutdown` reaches `return nil` only in a state with counter 0 in which no connection
+    is between register and counterDec — and the state stays like that until it unlocks -/
+theorem c11_shutdown_nil_only_drained {s : State} (h : Reachable s) (k : CallId)
+    (hs : (s.shuts k).pc = .retNil) : s.counter = 0 ∧ ∀ c, counted (s.conns c).pc = false := by
   have hi := inv_reachable h
-  exact ⟨hi.nilDrained hs, all_uncounted_of_counter_zero hi (hi.nilDrained hs)⟩
+  exact ⟨hi.nilDrained k hs, all_uncounted_of_counter_zero hi (hi.nilDrained k hs)⟩
 
 /-- … and every connection that had been registered has closed its socket -/
-theorem c11_shutdown_nil_served_closed {s : State} (h : Reachable s) (hs : s.shut = .retNil)
-    (c : ConnId) (hc : preReg (s.conns c).pc = false) : (s.conns c).sockClosed = true := by
+theorem c11_shutdown_nil_served_closed {s : State} (h : Reachable s) (k : CallId)
+    (hs : (s.shuts k).pc = .retNil) (c : ConnId) (hc : preReg (s.conns c).pc = false) :
+    (s.conns c).sockClosed = true := by
   have hi := inv_reachable h
-  have hun := (c11_shutdown_nil_only_drained h hs).2 c
+  have hun := (c11_shutdown_nil_only_drained h k hs).2 c
   apply (hi.loc c).closed
   revert hc hun
   cases (s.conns c).pc <;> simp [preReg, counted, pastDec]
 
-/-- after `Shutdown` returned nil every connection is: not yet registered; or a late registrant
+/-- call `k` comes to `return nil` in ONE way: its own poll finds the counter at 0.  Not because the
+    proxy was already closing when it was called (a second Shutdown after one that gave up, a Shutdown
+    after Close), not by a step of another call: whatever action leads there is `shutPoll k` -/
+theorem c11_shutdown_nil_only_by_own_poll {s s' : State} (k : CallId) (a : Action)
+    (hst : step s a = some s') (hb : (s.shuts k).pc ≠ .retNil) (ha : (s'.shuts k).pc = .retNil) :
+    a = .shutPoll k ∧ s.counter = 0 ∧ (s.shuts k).pc = .polling :=
+  (step_shut_reaches k a hst).1 ha hb
+
+/-- a call that finds `closing` already set (`closeOnce` has nothing left to do) goes on to poll like the
+    first one -/
+theorem c11_shutdown_already_closing_still_polls {s s' : State} (k : CallId) (hc : s.closing = true)
+    (hst : step s (.shutCloseCh k) = some s') :
+    (s'.shuts k).pc = .polling ∧ (s'.shuts k).sawClosing = true ∧ s'.closing = true := by
+  simp only [step] at hst
+  split at hst
+  · cases hst; simp [setShut, hc]
+  · simp at hst
+
+/-- `closing` is set once: no action resets it -/
+theorem c11_closing_set_once {s s' : State} (a : Action) (hst : step s a = some s') (hc : s.closing = true) :
+    s'.closing = true :=
+  step_closing_mono a hst hc
+
+/-- after call `k` returned nil every connection is: not yet registered; or a late registrant
     that never reads a request and only closes itself; or finished with its socket closed -/
-theorem c11_after_nil_no_service {s : State} (h : Reachable s) (hs : s.shut = .doneNil) (c : ConnId) :
+theorem c11_after_nil_no_service {s : State} (h : Reachable s) (k : CallId)
+    (hs : (s.shuts k).pc = .doneNil) (c : ConnId) :
     preReg (s.conns c).pc = true ∨
     ((s.conns c).regClosing = true ∧ (s.conns c).reads = 0 ∧ (s.conns c).forwards = 0 ∧
       noService (s.conns c).pc = true) ∨
@@ -124,7 +175,7 @@ theorem c11_after_nil_no_service {s : State} (h : Reachable s) (hs : s.shut = .d
     right
     cases hcn : counted (s.conns c).pc with
     | true =>
-      have hrc := hi.afterNil (Or.inr hs) c hcn
+      have hrc := hi.afterNil k (Or.inr hs) c hcn
       have := (hi.loc c).late hrc
       exact Or.inl ⟨hrc, this⟩
     | false =>
@@ -134,32 +185,109 @@ theorem c11_after_nil_no_service {s : State} (h : Reachable s) (hs : s.shut = .d
         cases (s.conns c).pc <;> simp [preReg, counted, pastDec]
       exact ⟨hpd, (hi.loc c).closed (Or.inr hpd)⟩
 
-/-- `Shutdown` returns the context's error only when the context has expired -/
-theorem c11_shutdown_err_only_ctx {s : State} (h : Reachable s)
-    (hs : s.shut = .retErr ∨ s.shut = .doneErr) : s.ctxExpired = true :=
-  (inv_reachable h).errCtx hs
+/-- call `k` returns the context's error only when ITS context is done -/
+theorem c11_shutdown_err_only_ctx {s : State} (h : Reachable s) (k : CallId)
+    (hs : (s.shuts k).pc = .retErr ∨ (s.shuts k).pc = .doneErr) : (s.shuts k).done.isSome = true :=
+  (inv_reachable h).errCtx k hs
 
-/-- the value the caller sees is the one Shutdown reached -/
-theorem c11_shutdown_ret_observed {s s' : State} {isNil : Bool}
-    (hst : step s (.shutdownRet isNil) = some s') :
-    (isNil = true → s.shut = .doneNil) ∧ (isNil = false → s.shut = .doneErr) := by
+/-- … and it comes to `return ctx.Err()` in ONE way: its own `select` finds its own context done (the
+    context of another call, expired long ago, does not count) -/
+theorem c11_shutdown_err_only_by_own_ctx {s s' : State} (k : CallId) (a : Action)
+    (hst : step s a = some s') (hb : (s.shuts k).pc ≠ .retErr) (ha : (s'.shuts k).pc = .retErr) :
+    a = .shutCtx k ∧ (s.shuts k).done.isSome = true ∧ (s.shuts k).pc = .selecting :=
+  (step_shut_reaches k a hst).2 ha hb
+
+/-- the value the caller sees is the one its call reached: nil, or the error of its own context
+    (`DeadlineExceeded` if the deadline passed first, `Canceled` if it was cancelled first) -/
+theorem c11_shutdown_ret_observed {s s' : State} {k : CallId} {r : Option Why}
+    (hst : step s (.shutdownRet k r) = some s') :
+    (r = none → (s.shuts k).pc = .doneNil) ∧
+    (∀ w, r = some w → (s.shuts k).pc = .doneErr ∧ (s.shuts k).done = some w) := by
   simp only [step] at hst
   split at hst
-  · rename_i hg
-    rcases hg with ⟨h1, h2⟩ | ⟨h1, h2⟩ <;> simp [h1, h2]
-  · simp at hst
+  · split at hst
+    · rename_i hg; exact ⟨fun _ => hg, fun w hw => (by cases hw)⟩
+    · simp at hst
+  · split at hst
+    · rename_i w hg
+      refine ⟨fun hn => (by cases hn), fun w' hw => ?_⟩
+      cases hw; exact hg
+    · simp at hst
 
 -- a request in flight at the origin: Shutdown polls, the context expires, Shutdown returns the error
 example : (run init (openConn 0 ++ toOrigin 0 {} ++ beginShutdown ++
-    [.shutPoll, .ctxExpire, .shutCtx, .shutUnlock, .shutdownRet false])).map (view 0) =
+    [.shutPoll 0, .ctxExpire 0, .shutCtx 0, .shutUnlock 0, .shutdownRet 0 (some .deadline)])).map (view 0) =
     some (1, true, .awaitOrigin, false, .doneErr) := by decide
 
 -- the same exchange completes (with `Connection: close`), then Shutdown returns nil
 example : (run init (openConn 0 ++ toOrigin 0 {} ++ beginShutdown ++
-    [.shutPoll, .originAnswer 0, .conn 0 .respReady, .conn 0 .writeHead, .conn 0 .writeDone,
-     .conn 0 .sockClose, .conn 0 .counterDec, .shutTimer, .shutPoll, .shutUnlock, .shutdownRet true,
+    [.shutPoll 0, .originAnswer 0, .conn 0 .respReady, .conn 0 .writeHead, .conn 0 .writeDone,
+     .conn 0 .sockClose, .conn 0 .counterDec, .shutTimer 0, .shutPoll 0, .shutUnlock 0, .shutdownRet 0 none,
      .respSeen 0 true, .closedSeen 0])).map (view 0) =
     some (0, true, .waitingForLockUnreg, true, .doneNil) := by decide
+
+/-- a first Shutdown gives up at its deadline with the request still at the origin; a second one (its own
+    context without deadline) is called at once -/
+def secondShutdown : List Action :=
+  openConn 0 ++ toOrigin 0 {} ++ beginShutdown ++
+    [.shutPoll 0, .ctxExpire 0, .shutCtx 0, .shutUnlock 0, .shutdownRet 0 (some .deadline),
+     .shutdownCall 1 true false, .shutLock 1, .shutCloseCh 1, .shutPoll 1]
+
+-- the second call found `closing` set, polled, found the counter at 1 and waits; it cannot return
+example : (run init secondShutdown).map (fun s => ((s.shuts 1).pc, (s.shuts 1).sawClosing, s.counter)) =
+    some (.selecting, true, 1) := by decide
+example : (run init (secondShutdown ++ [.shutUnlock 1])).isSome = false := by decide
+example : (run init (secondShutdown ++ [.ctxExpire 1])).isSome = false := by decide
+
+-- … until the exchange has completed and the connection is closed: then it returns nil
+example : (run init (secondShutdown ++
+    [.originAnswer 0, .conn 0 .respReady, .conn 0 .writeHead, .conn 0 .writeDone, .conn 0 .sockClose,
+     .conn 0 .counterDec, .shutTimer 1, .shutPoll 1, .shutUnlock 1, .shutdownRet 1 none])).map
+      (fun s => ((s.shuts 1).pc, s.counter, (s.conns 0).sockClosed, (s.conns 0).unseen)) =
+    some (.doneNil, 0, true, [true]) := by decide
+
+-- two calls at the same time: the second waits for the mutex until the first has returned, then polls itself
+example : (run init (openConn 0 ++ toOrigin 0 {} ++ beginShutdown ++
+    [.shutdownCall 1 false false, .shutLock 1])).isSome = false := by decide
+example : (run init (openConn 0 ++ toOrigin 0 {} ++ beginShutdown ++
+    [.shutdownCall 1 false false, .shutPoll 0, .ctxExpire 1, .ctxExpire 0, .shutCtx 0, .shutUnlock 0, .shutLock 1,
+     .shutCloseCh 1, .shutPoll 1, .shutCtx 1, .shutUnlock 1, .shutdownRet 1 (some .deadline)])).map
+      (fun s => ((s.shuts 0).pc, (s.shuts 1).pc, s.counter)) = some (.doneErr, .doneErr, 1) := by decide
+
+/-- WITNESS for the "already closing ⇒ return nil" variant (`Variant.earlyNil`: Shutdown and Close share a
+    `startClosing` that reports whether it changed anything, and Shutdown returns early when it did not):
+    the second call of `secondShutdown` reaches `return nil` — and returns it to its caller — with the
+    counter at 1, the request still at its origin and the socket open. -/
+theorem c11_early_nil_variant_witness :
+    (runV { earlyNil := true } init (openConn 0 ++ toOrigin 0 {} ++ beginShutdown ++
+      [.shutPoll 0, .ctxExpire 0, .shutCtx 0, .shutUnlock 0, .shutdownRet 0 (some .deadline),
+       .shutdownCall 1 true false, .shutLock 1, .shutCloseCh 1, .shutUnlock 1, .shutdownRet 1 none])).map
+      (fun s => ((s.shuts 1).pc, s.counter, (s.conns 0).pc, (s.conns 0).sockClosed)) =
+    some (.doneNil, 1, .awaitOrigin, false) := by decide
+
+/-- the statement of `c11_shutdown_nil_only_drained` for that variant (for the states its runs reach) -/
+def c11_early_nil_variant_full : Prop :=
+  ∀ (as : List Action) (s : State) (k : CallId), runV { earlyNil := true } init as = some s →
+    (s.shuts k).pc = .retNil → s.counter = 0
+
+/-- … is FALSE -/
+theorem c11_early_nil_variant_full_false : ¬ c11_early_nil_variant_full := by
+  intro h
+  have hsome : (runV { earlyNil := true } init (openConn 0 ++ toOrigin 0 {} ++ beginShutdown ++
+      [.shutPoll 0, .ctxExpire 0, .shutCtx 0, .shutUnlock 0, .shutdownCall 1 true false, .shutLock 1,
+       .shutCloseCh 1])).isSome = true := by decide
+  obtain ⟨s, hs⟩ := Option.isSome_iff_exists.mp hsome
+  have hv : (runV { earlyNil := true } init (openConn 0 ++ toOrigin 0 {} ++ beginShutdown ++
+      [.shutPoll 0, .ctxExpire 0, .shutCtx 0, .shutUnlock 0, .shutdownCall 1 true false, .shutLock 1,
+       .shutCloseCh 1])).map (fun s => ((s.shuts 1).pc, s.counter)) = some (.retNil, 1) := by decide
+  rw [hs] at hv
+  simp only [Option.map_some, Option.some.injEq, Prod.mk.injEq] at hv
+  have := h _ s 1 hs hv.1
+  rw [hv.2] at this
+  cases this
+
+-- the code itself (`Variant` all off) is `step`
+example : (runV {} init (secondShutdown ++ [.shutUnlock 1])).isSome = false := by decide
 
 /-! ## C. Requests -/
 
@@ -223,8 +351,8 @@ example : (run init (openConn 0 ++ beginShutdown ++
 
 -- a connection accepted before, registering after Shutdown returned: closed without reading
 example : (run init ([.connect 0 false, .serveCheck, .accept 0, .conn 0 .lockReq] ++ beginShutdown ++
-    [.shutPoll, .shutUnlock, .conn 0 .lockAcq, .conn 0 .insert, .conn 0 .counterAdd, .conn 0 .unlockReg,
-     .conn 0 .check0])).map (fun s => ((s.conns 0).pc, (s.conns 0).regClosing, s.shut)) =
+    [.shutPoll 0, .shutUnlock 0, .conn 0 .lockAcq, .conn 0 .insert, .conn 0 .counterAdd, .conn 0 .unlockReg,
+     .conn 0 .check0])).map (fun s => ((s.conns 0).pc, (s.conns 0).regClosing, (s.shuts 0).pc)) =
     some (.deferredClose, true, .doneNil) := by decide
 
 /-! ## D. Responses, and the exchanges that were at their origin when shutdown began
@@ -284,10 +412,10 @@ theorem c11_exchange_at_origin_completes_unless_cut {s s' : State} {c : ConnId} 
     close (which `run` calls only after the shutdown deadline, G) -/
 theorem c11_socket_closed_under_handler_only_by_close {s : State} (h : Reachable s) (c : ConnId)
     (hs : (s.conns c).sockClosed = true) (hp : selfClosed (s.conns c).pc = false) :
-    closeClosed s.close = true := by
+    ∃ k, closeClosed (s.closes k) = true := by
   rcases ((tuninv_reachable h).loc c).sock hs with h1 | h1
   · rw [hp] at h1; cases h1
-  · exact h1
+  · exact (everinv_reachable h).everEx h1
 
 /-- a response body in flight: if its head was written while closing it carries the option -/
 theorem c11_writing_while_closing_has_close {s : State} (h : Reachable s) (c : ConnId)
@@ -323,91 +451,123 @@ example : (run init (openConn 0 ++ toOrigin 0 {} ++ beginShutdown ++
 
 /-- while `Close` walks the map (one `conn.Close()` per step, in any order) every registered
     connection is still on its list or already closed; nothing can register or unregister meanwhile -/
-theorem c11_close_sweep_covers_map {s : State} (h : Reachable s) (hs : s.close = .closedCh)
+theorem c11_close_sweep_covers_map {s : State} (h : Reachable s) (k : CallId) (hs : s.closes k = .closedCh)
     (c : ConnId) (hc : c ∈ s.registered) : c ∈ s.sweepLeft ∨ (s.conns c).sockClosed = true :=
-  (inv_reachable h).sweep hs c hc
+  (inv_reachable h).sweep k hs c hc
 
-/-- after `Close` swept the map, every connection that ever registered has its socket closed, or
+/-- after a call of `Close` — any call, the first or a later one, made alone, after a `Shutdown` or while
+    one waits — swept the map, every connection that ever registered has its socket closed, or
     registered after `closing` (and then closes itself without reading, C) -/
-theorem c11_after_close_all_closed {s : State} (h : Reachable s) (hs : closeSwept s.close = true)
-    (c : ConnId) (hc : preReg (s.conns c).pc = false) :
+theorem c11_after_close_all_closed {s : State} (h : Reachable s) (k : CallId)
+    (hs : closeSwept (s.closes k) = true) (c : ConnId) (hc : preReg (s.conns c).pc = false) :
     (s.conns c).sockClosed = true ∨
     ((s.conns c).regClosing = true ∧ (s.conns c).reads = 0 ∧ noService (s.conns c).pc = true) := by
   have hi := inv_reachable h
-  rcases hi.afterClose hs c hc with h1 | h1
+  rcases hi.afterClose k hs c hc with h1 | h1
   · exact Or.inl h1
   · have := (hi.loc c).late h1
     exact Or.inr ⟨h1, this.1, this.2.2⟩
 
 -- Close with a request at the origin and an idle connection: both sockets closed
 example : (run init (openConn 0 ++ openConn 1 ++ toOrigin 0 {} ++
-    [.closeCall, .closeLock, .closeCloseCh, .closeConn 0, .closedSeen 0, .closeConn 1, .closeAll, .closeUnlock,
-     .closeRet, .closedSeen 1])).map
-      (fun s => ((s.conns 0).sockClosed, (s.conns 1).sockClosed, closeSwept s.close)) =
+    [.closeCall 0, .closeLock 0, .closeCloseCh 0, .closeConn 0 0, .closedSeen 0, .closeConn 0 1, .closeAll 0,
+     .closeUnlock 0, .closeRet 0, .closedSeen 1])).map
+      (fun s => ((s.conns 0).sockClosed, (s.conns 1).sockClosed, closeSwept (s.closes 0))) =
     some (true, true, true) := by decide
+
+-- Close while a Shutdown waits: it gets the mutex only after that Shutdown has returned; a second Close
+-- afterwards walks the map again (the handlers are still unwinding) and finds the sockets closed
+example : (run init (openConn 0 ++ toOrigin 0 {} ++ beginShutdown ++ [.shutPoll 0, .closeCall 0, .closeLock 0])).isSome
+    = false := by decide
+example : (run init (openConn 0 ++ toOrigin 0 {} ++ beginShutdown ++
+    [.shutPoll 0, .closeCall 0, .ctxExpire 0, .shutCtx 0, .shutUnlock 0, .closeLock 0, .closeCloseCh 0, .closeConn 0 0,
+     .closeAll 0, .closeUnlock 0, .closeRet 0, .closeCall 1, .closeLock 1, .closeCloseCh 1, .closeConn 1 0, .closeAll 1,
+     .closeUnlock 1, .closeRet 1, .closedSeen 0])).map
+      (fun s => ((s.conns 0).sockClosed, s.closes 0, s.closes 1, s.counter)) =
+    some (true, .done, .done, 1) := by decide
 
 /-! ## F. Progress: no deadlock between Shutdown's wait and the handlers -/
 
 /-- from every reachable state in which `Shutdown` holds `connsMu`, every registered connection can
     still reach its counter decrement: there is a continuation (its own steps and environment steps
     only; none needs the mutex, which Shutdown keeps) after which it is no longer counted -/
-theorem c11_conn_can_drain_under_shutdown_lock {s : State} {c : ConnId} (h : Reachable s)
-    (hl : s.lock = .shutdown) (hc : counted (s.conns c).pc = true) :
-    ∃ as s', run s as = some s' ∧ counted (s'.conns c).pc = false ∧ s'.lock = .shutdown ∧
-      s'.shut = s.shut ∧ ∀ d, d ≠ c → s'.conns d = s.conns d := by
+theorem c11_conn_can_drain_under_shutdown_lock {s : State} {c : ConnId} {k : CallId} (h : Reachable s)
+    (hl : s.lock = .shutdown k) (hc : counted (s.conns c).pc = true) :
+    ∃ as s', run s as = some s' ∧ counted (s'.conns c).pc = false ∧ s'.lock = .shutdown k ∧
+      s'.shuts = s.shuts ∧ ∀ d, d ≠ c → s'.conns d = s.conns d := by
   obtain ⟨as, s', h1, h2, h3, h4, _, h6⟩ := drain_conn h hl hc
   exact ⟨as, s', h1, h2, h3, h4, h6⟩
 
 /-- hence Shutdown's wait can always end: from every reachable state in which it polls there is a
     continuation in which it reaches `return nil` -/
-theorem c11_shutdown_wait_can_end {s : State} (h : Reachable s)
-    (hs : s.shut = .polling ∨ s.shut = .selecting) :
-    ∃ as s', run s as = some s' ∧ s'.shut = .retNil := by
+theorem c11_shutdown_wait_can_end {s : State} (h : Reachable s) (k : CallId)
+    (hs : (s.shuts k).pc = .polling ∨ (s.shuts k).pc = .selecting) :
+    ∃ as s', run s as = some s' ∧ (s'.shuts k).pc = .retNil := by
   have hnn := cnt_nonneg s.conns s.ids
-  exact wait_can_end_aux (cnt s.conns s.ids).toNat s h hs (by omega)
+  exact wait_can_end_aux k (cnt s.conns s.ids).toNat s h hs (by omega)
 
-example : ∃ s, Reachable s ∧ s.lock = .shutdown ∧ counted (s.conns 0).pc = true ∧ s.shut = .selecting := by
-  have hsome : (run init (openConn 0 ++ toOrigin 0 {} ++ beginShutdown ++ [.shutPoll])).isSome = true := by decide
+example : ∃ s, Reachable s ∧ s.lock = .shutdown 0 ∧ counted (s.conns 0).pc = true ∧ (s.shuts 0).pc = .selecting := by
+  have hsome : (run init (openConn 0 ++ toOrigin 0 {} ++ beginShutdown ++ [.shutPoll 0])).isSome = true := by decide
   obtain ⟨s, hs⟩ := Option.isSome_iff_exists.mp hsome
-  have hv : (run init (openConn 0 ++ toOrigin 0 {} ++ beginShutdown ++ [.shutPoll])).map
-      (fun s => (s.lock, counted (s.conns 0).pc, s.shut)) = some (.shutdown, true, .selecting) := by decide
+  have hv : (run init (openConn 0 ++ toOrigin 0 {} ++ beginShutdown ++ [.shutPoll 0])).map
+      (fun s => (s.lock, counted (s.conns 0).pc, (s.shuts 0).pc)) = some (.shutdown 0, true, .selecting) := by decide
   rw [hs] at hv
   simp only [Option.map_some, Option.some.injEq, Prod.mk.injEq] at hv
   exact ⟨s, reachable_run Reachable.init hs, hv.1, hv.2.1, hv.2.2⟩
 
-/-! ## G. The context handed to `Shutdown` (`shutdownContext`: the configured shutdown timeout)
+/-! ## G. The contexts handed to `Shutdown`, and `HTTPProxy.run`
 
-  `noLimit` = the context has no deadline (shutdown timeout 0, "no limit"; rig b: a context that is
-  never done).  It is a parameter of the initial state; the theorems below hold for every reachable
-  state of such a system. -/
+  Every call of `Shutdown` has a context of its own: with or without a deadline (`noLimit`), one that
+  somebody can cancel or not (`cancellable`).  `run` builds its context with `shutdownContext` from the
+  configuration: shutdown timeout 0 = no deadline (`cfgNoLimit`), `ShutdownSignals` non-empty = a second
+  signal during the drain cancels it (`cfgSignals`).  The configuration is a parameter of the initial
+  state; the theorems hold for every reachable state of every such system. -/
 
-/-- the kind of context is fixed: no action changes it -/
-theorem c11_nolimit_fixed {s s' : State} (a : Action) (hst : step s a = some s') :
-    s'.noLimit = s.noLimit :=
-  step_noLimit a hst
+/-- the kind of a call's context is fixed at the call, and a context that is done stays done for the
+    reason for which it became done (`ctx.Err()` never changes) -/
+theorem c11_ctx_fixed {s s' : State} (k : CallId) (a : Action) (hst : step s a = some s')
+    (hc : (s.shuts k).pc ≠ .idle) :
+    (s'.shuts k).noLimit = (s.shuts k).noLimit ∧ (s'.shuts k).cancellable = (s.shuts k).cancellable ∧
+      ∀ w, (s.shuts k).done = some w → (s'.shuts k).done = some w :=
+  step_ctx_fixed k a hst hc
 
-/-- a context without deadline never expires -/
-theorem c11_nolimit_ctx_never_expires {s : State} (h : Reachable s) (hn : s.noLimit = true) :
-    s.ctxExpired = false :=
-  (ctxinv_reachable h).noExpiry hn
+/-- a context is done for a reason its kind allows: `DeadlineExceeded` only with a deadline, `Canceled`
+    only if somebody can cancel it -/
+theorem c11_ctx_done_reason {s : State} (h : Reachable s) (k : CallId) :
+    ((s.shuts k).done = some .deadline → (s.shuts k).noLimit = false) ∧
+    ((s.shuts k).done = some .cancel → (s.shuts k).cancellable = true) :=
+  ⟨(ctxinv_reachable h).kindD k, (ctxinv_reachable h).kindC k⟩
 
-/-- … hence `Shutdown` never returns the context's error -/
-theorem c11_nolimit_shutdown_never_errs {s : State} (h : Reachable s) (hn : s.noLimit = true) :
-    s.shut ≠ .retErr ∧ s.shut ≠ .doneErr := by
-  have hc := c11_nolimit_ctx_never_expires h hn
+/-- a context without deadline that nobody can cancel is never done -/
+theorem c11_nolimit_ctx_never_done {s : State} (h : Reachable s) (k : CallId)
+    (hn : (s.shuts k).noLimit = true) (hc : (s.shuts k).cancellable = false) : (s.shuts k).done = none := by
+  have hr := c11_ctx_done_reason h k
+  cases hd : (s.shuts k).done with
+  | none => rfl
+  | some w =>
+    cases w with
+    | deadline => have := hr.1 hd; rw [hn] at this; cases this
+    | cancel => have := hr.2 hd; rw [hc] at this; cases this
+
+/-- … hence such a call of `Shutdown` never returns the context's error -/
+theorem c11_nolimit_shutdown_never_errs {s : State} (h : Reachable s) (k : CallId)
+    (hn : (s.shuts k).noLimit = true) (hc : (s.shuts k).cancellable = false) :
+    (s.shuts k).pc ≠ .retErr ∧ (s.shuts k).pc ≠ .doneErr := by
+  have hd := c11_nolimit_ctx_never_done h k hn hc
   constructor <;> intro hs
-  · have := (inv_reachable h).errCtx (Or.inl hs); rw [hc] at this; cases this
-  · have := (inv_reachable h).errCtx (Or.inr hs); rw [hc] at this; cases this
+  · have := (inv_reachable h).errCtx k (Or.inl hs); rw [hd] at this; cases this
+  · have := (inv_reachable h).errCtx k (Or.inr hs); rw [hd] at this; cases this
 
-/-- with a never-expiring context `Shutdown` returns nil EXACTLY when its poll finds the counter at
-    0: while it waits, whatever happens (any action of any goroutine or of the environment), it
-    reaches `return nil` iff that action is its own poll and the counter is 0 — and it never reaches
-    `return ctx.Err()` -/
-theorem c11_nolimit_shutdown_nil_iff_drained {s s' : State} (h : Reachable s) (hn : s.noLimit = true)
-    (hw : s.shut = .polling ∨ s.shut = .selecting) (a : Action) (hst : step s a = some s') :
-    (s'.shut = .retNil ↔ (a = .shutPoll ∧ s.counter = 0)) ∧ s'.shut ≠ .retErr := by
-  have hc := c11_nolimit_ctx_never_expires h hn
-  rcases step_shut_waiting a hst hw with ⟨ha, hs⟩ | ⟨ha, hs⟩ | ⟨_, he, _⟩ | ⟨h1, h2, hs⟩
+/-- with a context that is never done call `k` returns nil EXACTLY when its poll finds the counter at
+    0: while it waits, whatever happens (any action of any goroutine, of any other call or of the
+    environment), it reaches `return nil` iff that action is its own poll and the counter is 0 — and it
+    never reaches `return ctx.Err()` -/
+theorem c11_nolimit_shutdown_nil_iff_drained {s s' : State} (h : Reachable s) (k : CallId)
+    (hn : (s.shuts k).noLimit = true) (hcb : (s.shuts k).cancellable = false)
+    (hw : (s.shuts k).pc = .polling ∨ (s.shuts k).pc = .selecting) (a : Action) (hst : step s a = some s') :
+    ((s'.shuts k).pc = .retNil ↔ (a = .shutPoll k ∧ s.counter = 0)) ∧ (s'.shuts k).pc ≠ .retErr := by
+  have hc := c11_nolimit_ctx_never_done h k hn hcb
+  rcases step_shut_waiting k a hst hw with ⟨ha, hs⟩ | ⟨ha, hs⟩ | ⟨_, he, _⟩ | ⟨h1, h2, hs⟩
   · subst ha
     by_cases h0 : s.counter = 0
     · simp [hs, h0]
@@ -417,30 +577,66 @@ theorem c11_nolimit_shutdown_nil_iff_drained {s s' : State} (h : Reachable s) (h
   · rw [hs]
     rcases hw with hw | hw <;> simp [hw, h1]
 
-/-- whatever the context: once `run` is under way, `Close` is called only after the context
-    expired (it is `run` itself that calls it, after `Shutdown` returned the context's error) -/
-theorem c11_run_closes_only_after_expiry {s : State} (h : Reachable s) (hr : s.runner ≠ .idle)
-    (hc : s.close ≠ .idle) : s.shut = .doneErr ∧ s.ctxExpired = true := by
-  have hs := (ctxinv_reachable h).runClose hr hc
-  exact ⟨hs, (inv_reachable h).errCtx (Or.inr hs)⟩
+/-- the context `run` hands to `Shutdown` is the one the configuration describes -/
+theorem c11_run_ctx_is_configured {s : State} (h : Reachable s)
+    (hr : s.runner = .inShutdown ∨ s.runner = .inClose ∨ s.runner = .finished) :
+    (s.shuts s.runShut).pc ≠ .idle ∧ (s.shuts s.runShut).noLimit = s.cfgNoLimit ∧
+      (s.shuts s.runShut).cancellable = s.cfgSignals :=
+  (ctxinv_reachable h).kind (by rcases hr with h | h | h <;> simp [ctl, h, runnerPast])
 
-/-- with a never-expiring context `run` never calls `Close`: from the cancellation on, `Close` stays
-    idle (so no socket is ever closed by a sweep of the map) -/
-theorem c11_nolimit_run_never_closes {s : State} (h : Reachable s) (hn : s.noLimit = true)
-    (hr : s.runner ≠ .idle) : s.close = .idle ∧ s.runner ≠ .inClose := by
-  have hci : s.close = .idle := by
-    cases hcl : s.close with
+/-- the configuration is fixed: no action changes it -/
+theorem c11_cfg_fixed {s s' : State} (a : Action) (hst : step s a = some s') :
+    s'.cfgNoLimit = s.cfgNoLimit ∧ s'.cfgSignals = s.cfgSignals := by
+  cases a with
+  | conn c a =>
+    obtain ⟨x, e, _, rfl⟩ := step_conn_eq hst
+    cases e <;> exact ⟨rfl, rfl⟩
+  | _ =>
+    simp only [step] at hst
+    repeat' split at hst
+    all_goals first
+      | (simp at hst; done)
+      | (simp only [Option.some.injEq] at hst; subst hst
+         first | exact ⟨rfl, rfl⟩ | (simp only [closeListener, setConn]; exact ⟨rfl, rfl⟩) | (split <;> exact ⟨rfl, rfl⟩))
+
+/-- whatever the context: once `run` is under way, the only call of `Close` is run's own, made after its
+    `Shutdown` returned the context's error, i.e. after that context was done -/
+theorem c11_run_closes_only_after_ctx_done {s : State} (h : Reachable s) (hr : s.runner ≠ .idle) (k : CallId)
+    (hc : s.closes k ≠ .idle) :
+    k = s.runClose ∧ (s.shuts s.runShut).pc = .doneErr ∧ (s.shuts s.runShut).done.isSome = true := by
+  have hi := ctxinv_reachable h
+  have hs := hi.onlyC (hi.apiRun hr) k hc
+  exact ⟨hs.2.1, hs.2.2, (inv_reachable h).errCtx _ (Or.inr hs.2.2)⟩
+
+/-- with a context that is never done (no deadline, no shutdown signals) `run` never calls `Close`: from
+    the cancellation on, every `Close` stays idle (so no socket is ever closed by a sweep of the map) -/
+theorem c11_nolimit_run_never_closes {s : State} (h : Reachable s) (hn : s.cfgNoLimit = true)
+    (hsg : s.cfgSignals = false) (hr : s.runner ≠ .idle) : (∀ k, s.closes k = .idle) ∧ s.runner ≠ .inClose := by
+  have hi := ctxinv_reachable h
+  have hci : ∀ k, s.closes k = .idle := by
+    intro k
+    cases hcl : s.closes k with
     | idle => rfl
     | _ =>
-      have := (c11_run_closes_only_after_expiry h hr (by rw [hcl]; simp)).2
-      rw [c11_nolimit_ctx_never_expires h hn] at this; cases this
-  exact ⟨hci, fun hic => (ctxinv_reachable h).inClose hic hci⟩
+      have hc := c11_run_closes_only_after_ctx_done h hr k (by rw [hcl]; simp)
+      have hp := hi.onlyS (hi.apiRun hr) s.runShut (by
+        rw [show (ctl s).shuts s.runShut = s.shuts s.runShut from rfl, hc.2.1]; simp)
+      have hk := hi.kind hp.1
+      have := c11_nolimit_ctx_never_done h s.runShut (hk.2.1.trans hn) (hk.2.2.trans hsg)
+      rw [this] at hc; cases hc.2.2
+  exact ⟨hci, fun hic => (hi.inClose hic).2 (hci _)⟩
+
+/-- what holds of every connection once nothing serves it any more -/
+def connSettled (x : Conn) : Prop :=
+  preReg x.pc = true ∨
+  (x.regClosing = true ∧ x.reads = 0 ∧ x.forwards = 0 ∧ noService x.pc = true) ∨
+  x.sockClosed = true
 
 /-- … and `run` returns only after `Shutdown` returned nil, i.e. (B) after the counter reached 0
     with every served connection closed by its own handler -/
-theorem c11_nolimit_run_returns_after_drain {s s' : State} (h : Reachable s) (hn : s.noLimit = true)
-    (hst : step s .runRet = some s') :
-    s.shut = .doneNil ∧ s.close = .idle ∧
+theorem c11_nolimit_run_returns_after_drain {s s' : State} (h : Reachable s) (hn : s.cfgNoLimit = true)
+    (hsg : s.cfgSignals = false) (hst : step s .runRet = some s') :
+    (s.shuts s.runShut).pc = .doneNil ∧ (∀ k, s.closes k = .idle) ∧
     ∀ c, preReg (s.conns c).pc = true ∨
       ((s.conns c).regClosing = true ∧ (s.conns c).reads = 0 ∧ (s.conns c).forwards = 0 ∧
         noService (s.conns c).pc = true) ∨
@@ -450,31 +646,32 @@ theorem c11_nolimit_run_returns_after_drain {s s' : State} (h : Reachable s) (hn
     split at hst
     · assumption
     · simp at hst
-  have hnc := c11_nolimit_run_never_closes h hn (by rw [hf]; simp)
-  have hs : s.shut = .doneNil := by
-    rcases (ctxinv_reachable h).fin hf with h1 | h1
+  have hnc := c11_nolimit_run_never_closes h hn hsg (by rw [hf]; simp)
+  have hs : (s.shuts s.runShut).pc = .doneNil := by
+    rcases (ctxinv_reachable h).fin hf with h1 | ⟨_, h1⟩
     · exact h1
-    · rw [hnc.1] at h1; cases h1
-  exact ⟨hs, hnc.1, fun c => c11_after_nil_no_service h hs c⟩
+    · rw [show (ctl s).closes (ctl s).runClose = s.closes s.runClose from rfl, hnc.1] at h1; cases h1
+  exact ⟨hs, hnc.1, fun c => c11_after_nil_no_service h _ hs c⟩
 
-/-- the run goroutine of a proxy with shutdown timeout 0, one request at the origin when the run
-    context is cancelled -/
+/-- the run goroutine of a proxy, one request at the origin when the run context is cancelled -/
 def cancelWithRequestAtOrigin : List Action :=
-  openConn 0 ++ toOrigin 0 {} ++ [.cancel, .runCloseListeners, .runShutdown, .shutLock, .shutCloseCh, .shutPoll]
+  openConn 0 ++ toOrigin 0 {} ++
+    [.cancel, .runCloseListeners, .runShutdown 0, .shutLock 0, .shutCloseCh 0, .shutPoll 0]
 
--- no limit: the context cannot expire, Shutdown keeps polling; the exchange completes, then run returns
-example : (run initNoLimit (cancelWithRequestAtOrigin ++ [.ctxExpire])).isSome = false := by decide
+-- no limit, no signals: the context cannot expire, Shutdown keeps polling; the exchange completes, then run returns
+example : (run initNoLimit (cancelWithRequestAtOrigin ++ [.ctxExpire 0])).isSome = false := by decide
+example : (run initNoLimit (cancelWithRequestAtOrigin ++ [.ctxCancel 0])).isSome = false := by decide
 
 example : (run initNoLimit (cancelWithRequestAtOrigin ++
-    [.shutTimer, .shutPoll, .originAnswer 0, .conn 0 .respReady, .conn 0 .writeHead, .conn 0 .writeDone,
-     .conn 0 .sockClose, .conn 0 .counterDec, .shutTimer, .shutPoll, .shutUnlock, .runAfterShutdown, .runRet,
-     .respSeen 0 true, .closedSeen 0])).map (fun s => (view 0 s, s.runner, s.close)) =
+    [.shutTimer 0, .shutPoll 0, .originAnswer 0, .conn 0 .respReady, .conn 0 .writeHead, .conn 0 .writeDone,
+     .conn 0 .sockClose, .conn 0 .counterDec, .shutTimer 0, .shutPoll 0, .shutUnlock 0, .runAfterShutdown 0, .runRet,
+     .respSeen 0 true, .closedSeen 0])).map (fun s => (view 0 s, s.runner, s.closes 0)) =
     some ((0, true, .waitingForLockUnreg, true, .doneNil), .finished, .idle) := by decide
 
 -- a deadline: once it has passed, run cuts the same exchange (the excused path of the property)
 example : (run init (cancelWithRequestAtOrigin ++
-    [.ctxExpire, .shutCtx, .shutUnlock, .runAfterShutdown, .closeLock, .closeCloseCh, .closeConn 0, .closeAll,
-     .closeUnlock, .runAfterClose, .runRet, .closedSeen 0])).map (fun s => (view 0 s, s.runner, s.close)) =
+    [.ctxExpire 0, .shutCtx 0, .shutUnlock 0, .runAfterShutdown 0, .closeLock 0, .closeCloseCh 0, .closeConn 0 0,
+     .closeAll 0, .closeUnlock 0, .runAfterClose, .runRet, .closedSeen 0])).map (fun s => (view 0 s, s.runner, s.closes 0)) =
     some ((1, true, .awaitOrigin, true, .doneErr), .finished, .done) := by decide
 
 /-! ## H. Tunnels: established before or during the shutdown, they are in-flight work -/
@@ -482,7 +679,7 @@ example : (run init (cancelWithRequestAtOrigin ++
 /-- the actions that bring a CONNECT whose dial completes AFTER shutdown began into its tunnel -/
 def connectDuringShutdown (c : ConnId) : List Action :=
   openConn c ++ toOrigin c { connect := true } ++ beginShutdown ++
-    [.shutPoll, .originAnswer c, .conn c .respReady, .conn c .writeHead]
+    [.shutPoll 0, .originAnswer c, .conn c .respReady, .conn c .writeHead]
 
 /-- only a CONNECT is ever in the tunnel state -/
 theorem c11_tunnel_only_connect {s : State} (h : Reachable s) (c : ConnId)
@@ -500,10 +697,10 @@ theorem c11_tunnel_registered_and_counted {s : State} (h : Reachable s) (c : Con
   exact cnt_pos_of_mem hcid (by rw [hp]; rfl)
 
 /-- `Shutdown` does not reach `return nil` while a tunnel is open -/
-theorem c11_shutdown_nil_no_tunnel_open {s : State} (h : Reachable s) (hs : s.shut = .retNil)
-    (c : ConnId) : (s.conns c).pc ≠ .tunnel := by
+theorem c11_shutdown_nil_no_tunnel_open {s : State} (h : Reachable s) (k : CallId)
+    (hs : (s.shuts k).pc = .retNil) (c : ConnId) : (s.conns c).pc ≠ .tunnel := by
   intro hp
-  have := (c11_shutdown_nil_only_drained h hs).2 c
+  have := (c11_shutdown_nil_only_drained h k hs).2 c
   rw [hp] at this
   cases this
 
@@ -548,21 +745,22 @@ theorem c11_tunnel_ends_only_by_endpoint_or_closed_socket {s s' : State} {c : Co
 theorem c11_tunnel_ends_by_endpoint_or_forced_close {s s' : State} {c : ConnId} (h : Reachable s)
     (hp : (s.conns c).pc = .tunnel) (hst : step s (.conn c .tunnelEnd) = some s') :
     (s.conns c).clientGone = true ∨ (s.conns c).originEnded = true ∨
-      (closeClosed s.close = true ∧ (s.runner ≠ .idle → s.ctxExpired = true)) := by
+      ((∃ k, closeClosed (s.closes k) = true) ∧ (s.runner ≠ .idle → (s.shuts s.runShut).done.isSome = true)) := by
   rcases c11_tunnel_ends_only_by_endpoint_or_closed_socket hp hst with ⟨ha, _⟩ | ⟨_, _, h1 | h1 | h1⟩
   · cases ha
   · right; right
     have hcc := c11_socket_closed_under_handler_only_by_close h c h1 (by rw [hp]; rfl)
-    refine ⟨hcc, fun hr => (c11_run_closes_only_after_expiry h hr ?_).2⟩
-    intro hidle; rw [hidle] at hcc; cases hcc
+    refine ⟨hcc, fun hr => ?_⟩
+    obtain ⟨k, hk⟩ := hcc
+    exact (c11_run_closes_only_after_ctx_done h hr k (by intro hidle; rw [hidle] at hk; cases hk)).2.2
   · exact Or.inl h1
   · exact Or.inr (Or.inl h1)
 
 /-- after `Close` swept the map the socket of every tunnel is closed -/
-theorem c11_after_close_tunnel_socket_closed {s : State} (h : Reachable s)
-    (hs : closeSwept s.close = true) (c : ConnId) (hp : (s.conns c).pc = .tunnel) :
+theorem c11_after_close_tunnel_socket_closed {s : State} (h : Reachable s) (k : CallId)
+    (hs : closeSwept (s.closes k) = true) (c : ConnId) (hp : (s.conns c).pc = .tunnel) :
     (s.conns c).sockClosed = true := by
-  rcases c11_after_close_all_closed h hs c (by rw [hp]; rfl) with h1 | ⟨_, _, h1⟩
+  rcases c11_after_close_all_closed h k hs c (by rw [hp]; rfl) with h1 | ⟨_, _, h1⟩
   · exact h1
   · rw [hp] at h1; cases h1
 
@@ -576,21 +774,22 @@ example : (run init (connectDuringShutdown 0)).map
 -- connection; Shutdown returns nil
 example : (run init (connectDuringShutdown 0 ++
     [.respSeen 0 false, .conn 0 .relay, .echoSeen 0, .conn 0 .relay, .echoSeen 0, .gone 0,
-     .conn 0 .tunnelEnd, .conn 0 .sockClose, .conn 0 .counterDec, .shutTimer, .shutPoll, .shutUnlock,
-     .shutdownRet true])).map (view 0) =
+     .conn 0 .tunnelEnd, .conn 0 .sockClose, .conn 0 .counterDec, .shutTimer 0, .shutPoll 0, .shutUnlock 0,
+     .shutdownRet 0 none])).map (view 0) =
     some (0, true, .waitingForLockUnreg, true, .doneNil) := by decide
 
 -- … or the target ends it
 example : (run init (connectDuringShutdown 0 ++
     [.respSeen 0 false, .conn 0 .relay, .echoSeen 0, .originEnd 0, .conn 0 .tunnelEnd, .conn 0 .sockClose,
-     .closedSeen 0, .conn 0 .counterDec, .shutTimer, .shutPoll, .shutUnlock, .shutdownRet true])).map (view 0) =
+     .closedSeen 0, .conn 0 .counterDec, .shutTimer 0, .shutPoll 0, .shutUnlock 0, .shutdownRet 0 none])).map (view 0) =
     some (0, true, .waitingForLockUnreg, true, .doneNil) := by decide
 
 -- … or nobody does: Shutdown returns the context's error at the deadline, Close closes the socket
 -- under the tunnel, which ends
 example : (run init (connectDuringShutdown 0 ++
-    [.respSeen 0 false, .conn 0 .relay, .echoSeen 0, .ctxExpire, .shutCtx, .shutUnlock, .shutdownRet false,
-     .closeCall, .closeLock, .closeCloseCh, .closeConn 0, .closeAll, .closeUnlock, .closeRet,
+    [.respSeen 0 false, .conn 0 .relay, .echoSeen 0, .ctxExpire 0, .shutCtx 0, .shutUnlock 0,
+     .shutdownRet 0 (some .deadline),
+     .closeCall 0, .closeLock 0, .closeCloseCh 0, .closeConn 0 0, .closeAll 0, .closeUnlock 0, .closeRet 0,
      .conn 0 .tunnelEnd, .conn 0 .sockClose, .closedSeen 0])).map (view 0) =
     some (1, true, .counterDec, true, .doneErr) := by decide
 
@@ -600,9 +799,136 @@ example : (run init (connectDuringShutdown 0 ++ [.conn 0 .tunnelEnd])).isSome = 
 -- a tunnel established before the shutdown behaves the same
 example : (run init (openConn 0 ++ toOrigin 0 { connect := true } ++
     [.originAnswer 0, .conn 0 .respReady, .conn 0 .writeHead] ++ beginShutdown ++
-    [.shutPoll, .conn 0 .relay, .echoSeen 0, .gone 0, .conn 0 .tunnelEnd, .conn 0 .sockClose,
-     .conn 0 .counterDec, .shutTimer, .shutPoll, .shutUnlock, .shutdownRet true])).map (view 0) =
+    [.shutPoll 0, .conn 0 .relay, .echoSeen 0, .gone 0, .conn 0 .tunnelEnd, .conn 0 .sockClose,
+     .conn 0 .counterDec, .shutTimer 0, .shutPoll 0, .shutUnlock 0, .shutdownRet 0 none])).map (view 0) =
     some (0, true, .waitingForLockUnreg, true, .doneNil) := by decide
+
+/-! ## I. `run`: however the drain ends, what was accepted is closed before `Run` returns
+
+  The context of run's `Shutdown` can be done because the shutdown timeout passed (`ctxExpire`) or because
+  a second shutdown signal arrived during the drain (`ctxCancel`).  `Shutdown` then returns
+  `DeadlineExceeded` resp. `Canceled`; in BOTH cases `run` goes on to `Close`. -/
+
+/-- the continuation of `run` after its `Shutdown` returned is decided by "nil or not" alone: an error —
+    whichever — leads to the call of `Close`, nil to the return -/
+theorem c11_run_after_shutdown {s s' : State} (k : CallId) (hst : step s (.runAfterShutdown k) = some s') :
+    ((s.shuts s.runShut).pc = .doneNil ∧ s'.runner = .finished ∧ s'.closes = s.closes) ∨
+    ((s.shuts s.runShut).pc = .doneErr ∧ s'.runner = .inClose ∧ s'.runClose = k ∧ s'.closes k = .waitingForLock) := by
+  simp only [step] at hst
+  split at hst
+  · rename_i hg; cases hst; exact Or.inl ⟨hg.2, rfl, rfl⟩
+  · split at hst
+    · rename_i hg; cases hst; exact Or.inr ⟨hg.2.1, rfl, rfl, by simp [setClose]⟩
+    · simp at hst
+
+/-- … and after an error that step is always possible: `run` is never stuck before `Close`, whatever the
+    reason of the error (a fresh call number is all it needs) -/
+theorem c11_run_error_close_enabled {s : State} (k : CallId) (hr : s.runner = .inShutdown)
+    (he : (s.shuts s.runShut).pc = .doneErr) (hk : s.closes k = .idle) :
+    (step s (.runAfterShutdown k)).isSome = true := by
+  simp [step, hr, he, hk]
+
+/-- when `Run` returns after its `Shutdown` returned an error — `DeadlineExceeded` or `Canceled` —, its
+    `Close` has been called and has returned -/
+theorem c11_run_returns_after_close_on_any_error {s s' : State} (h : Reachable s) (hst : step s .runRet = some s')
+    (he : (s.shuts s.runShut).pc = .doneErr) : s.closes s.runClose = .done := by
+  have hf : s.runner = .finished := by
+    simp only [step] at hst
+    split at hst
+    · assumption
+    · simp at hst
+  rcases (ctxinv_reachable h).fin hf with h1 | ⟨_, h1⟩
+  · rw [show (ctl s).shuts (ctl s).runShut = s.shuts s.runShut from rfl, he] at h1; cases h1
+  · exact h1
+
+/-- when `Run` returns — for every configuration and every way the drain ended — every accepted
+    connection is settled: its socket is closed, or it has not registered yet / registered after `closing`
+    (and then closes itself without reading a request, C).  No exchange is still being served. -/
+theorem c11_run_returns_everything_closed {s s' : State} (h : Reachable s) (hst : step s .runRet = some s')
+    (c : ConnId) : connSettled (s.conns c) := by
+  have hf : s.runner = .finished := by
+    simp only [step] at hst
+    split at hst
+    · assumption
+    · simp at hst
+  rcases (ctxinv_reachable h).fin hf with h1 | ⟨_, h1⟩
+  · rcases c11_after_nil_no_service h _ h1 c with h2 | h2 | h2
+    · exact Or.inl h2
+    · exact Or.inr (Or.inl h2)
+    · exact Or.inr (Or.inr h2.2)
+  · cases hp : preReg (s.conns c).pc with
+    | true => exact Or.inl hp
+    | false =>
+      rcases c11_after_close_all_closed h s.runClose (by
+        rw [show s.closes s.runClose = .done from h1]; rfl) c hp with h2 | h2
+      · exact Or.inr (Or.inr h2)
+      · have := ((inv_reachable h).loc c).late h2.1
+        exact Or.inr (Or.inl ⟨h2.1, this⟩)
+
+/-- run's context is cancelled only if shutdown signals are configured, and expires only if a shutdown
+    timeout is -/
+theorem c11_run_ctx_done_needs_cfg {s : State} (h : Reachable s)
+    (hr : s.runner = .inShutdown ∨ s.runner = .inClose ∨ s.runner = .finished) :
+    ((s.shuts s.runShut).done = some .cancel → s.cfgSignals = true) ∧
+    ((s.shuts s.runShut).done = some .deadline → s.cfgNoLimit = false) := by
+  have hk := c11_run_ctx_is_configured h hr
+  have hd := c11_ctx_done_reason h s.runShut
+  exact ⟨fun h1 => hk.2.2 ▸ hd.2 h1, fun h1 => hk.2.1 ▸ hd.1 h1⟩
+
+/-- shutdown signals configured, a long shutdown timeout, one request parked at the origin: the drain is
+    ended by a second signal -/
+def secondSignal : List Action :=
+  cancelWithRequestAtOrigin ++ [.ctxCancel 0, .shutCtx 0, .shutUnlock 0]
+
+-- Shutdown returns Canceled; run calls Close, which closes the socket under the handler; run returns
+example : (run (initCfg false true) (secondSignal ++
+    [.runAfterShutdown 0, .closeLock 0, .closeCloseCh 0, .closeConn 0 0, .closeAll 0, .closeUnlock 0, .runAfterClose,
+     .runRet, .closedSeen 0])).map
+      (fun s => ((s.shuts 0).done, (s.conns 0).pc, (s.conns 0).sockClosed, s.runner, s.closes 0)) =
+    some (some .cancel, .awaitOrigin, true, .finished, .done) := by decide
+
+-- without shutdown signals there is no second signal
+example : (run init secondSignal).isSome = false := by decide
+
+-- run cannot return without having closed
+example : (run (initCfg false true) (secondSignal ++ [.runRet])).isSome = false := by decide
+
+/-- WITNESS for the "Close only on DeadlineExceeded" variant (`Variant.closeOnDeadlineOnly`: the fallback
+    rewritten as a switch on `errors.Is(err, context.DeadlineExceeded)`): after a second signal `Run`
+    returns with the request still at its origin and the accepted socket open; ended by the timeout the
+    same drain is closed as it should be. -/
+theorem c11_close_on_deadline_only_variant_witness :
+    (runV { closeOnDeadlineOnly := true } (initCfg false true) (secondSignal ++ [.runAfterShutdown 0, .runRet])).map
+      (fun s => ((s.shuts 0).done, (s.conns 0).pc, (s.conns 0).sockClosed, s.runner, s.closes 0)) =
+      some (some .cancel, .awaitOrigin, false, .finished, .idle) ∧
+    (runV { closeOnDeadlineOnly := true } (initCfg false true) (cancelWithRequestAtOrigin ++
+      [.ctxExpire 0, .shutCtx 0, .shutUnlock 0, .runAfterShutdown 0, .closeLock 0, .closeCloseCh 0, .closeConn 0 0,
+       .closeAll 0, .closeUnlock 0, .runAfterClose, .runRet])).map
+      (fun s => ((s.shuts 0).done, (s.conns 0).sockClosed, s.runner, s.closes 0)) =
+      some (some .deadline, true, .finished, .done) := by
+  decide
+
+/-- the statement of `c11_run_returns_everything_closed` for that variant (decidable core: the socket of
+    a connection that read a request is closed when `Run` returns) -/
+def c11_close_on_deadline_only_variant_full : Prop :=
+  ∀ (as : List Action) (s : State) (c : ConnId),
+    runV { closeOnDeadlineOnly := true } (initCfg false true) (as ++ [.runRet]) = some s →
+    (s.conns c).reads ≠ 0 → (s.conns c).sockClosed = true
+
+/-- … is FALSE -/
+theorem c11_close_on_deadline_only_variant_full_false : ¬ c11_close_on_deadline_only_variant_full := by
+  intro h
+  have hsome : (runV { closeOnDeadlineOnly := true } (initCfg false true)
+      ((secondSignal ++ [.runAfterShutdown 0]) ++ [.runRet])).isSome = true := by decide
+  obtain ⟨s, hs⟩ := Option.isSome_iff_exists.mp hsome
+  have hv : (runV { closeOnDeadlineOnly := true } (initCfg false true)
+      ((secondSignal ++ [.runAfterShutdown 0]) ++ [.runRet])).map
+      (fun s => ((s.conns 0).reads, (s.conns 0).sockClosed)) = some (1, false) := by decide
+  rw [hs] at hv
+  simp only [Option.map_some, Option.some.injEq, Prod.mk.injEq] at hv
+  have := h _ s 0 hs (by rw [hv.1]; simp)
+  rw [hv.2] at this
+  cases this
 
 end C11
 end FwdVerif
